@@ -200,8 +200,10 @@ def c01_cases(tier, seed):
             }
         files = {l: tree(l, "t") for l in locales}
         cases.append(Case(Project(default, locales, files, style=STYLES[j % len(STYLES)]), "c01_subkeys/%d" % j, roles={"*": "subkeys"}))
-        nsfiles = {ns: {l: tree(l, ns) for l in locales} for ns in ("common", "home")}
-        cases.append(Case(Project(default, locales, nsfiles, namespaces=["common", "home"], style=STYLES[(j + 1) % len(STYLES)]),
+        # declaration order of the namespaces in Cargo.toml: alphabetical or not, two or three
+        nsnames = [["common", "home"], ["home", "common"], ["zeta", "alpha", "mid"], ["b_ns", "a_ns"]][j % 4]
+        nsfiles = {ns: {l: tree(l, ns) for l in locales} for ns in nsnames}
+        cases.append(Case(Project(default, locales, nsfiles, namespaces=nsnames, style=STYLES[(j + 1) % len(STYLES)]),
                           "c01_namespaces/%d" % j, roles={"*": "namespaces"}))
     # whitespace-only literal pieces between interpolations / as a component's only child; empty component
     for j, (default, locales) in enumerate(LOCALE_SETS[1:3]):
@@ -348,6 +350,7 @@ def c04_cases(tier, seed):
         {"range_syntax": "seq"}, {"range_syntax": "map"}, {"range_syntax": "mixed", "pipe": True},
         {"range_syntax": "seq", "numeric_counts": True}, {"range_syntax": "seq", "bare_fallback": False, "pipe": True},
         {"range_syntax": "map", "bare_fallback": False, "numeric_counts": True},
+        {"range_syntax": "mixed", "pipe": "tail", "numeric_counts": True},
     ]
     types = INT_TYPES_ALL + ["f32", "f64", None]
     per_type = 2 if tier == "quick" else 12
@@ -365,6 +368,8 @@ def c04_cases(tier, seed):
                     nspec = 1 if rng.random() < 0.6 else rng.randrange(2, 4)
                     specs = [random_spec(rng, ety) for _ in range(nspec)]
                     txt = S("r%d.%d " % (k, b), V("count"), " items") if (k + b) % 2 == 0 else S("r%d.%d fixed" % (k, b))
+                    if (k + b) % 4 == 0:
+                        txt = S(V("count"), " items r%d.%d" % (k, b))      # the count opens the branch
                     branches.append((specs, txt))
                 branches.append(("fallback", S("r%d.else " % k, V("count")) if k % 2 else S("r%d.else" % k)))
                 files["en"]["r%d" % k] = RANGE(ty, branches)
@@ -390,9 +395,13 @@ def c04_cases(tier, seed):
                     files[l]["f%d" % k] = S("<", FK("r%d" % k, {"count": NUM(n)}), ">")
                     files[l]["h%d" % k] = S("{", FK("r%d" % k, {"count": NUM(nb2)}), "}")
                     files[l]["g%d" % k] = S(FK("r%d" % k, {"count": S(V("n"))}), " end")
+                    files[l]["e%d" % k] = S(FK("r%d" % k, {"count": NUM(n)}), " tail")       # reference in first position
+                    files[l]["d%d" % k] = S(FK("r%d" % k, {"count": NUM(nb2)}))
                 roles[(None, ("f%d" % k,))] = "range_fk_literal_count:%s" % ety
                 roles[(None, ("h%d" % k,))] = "range_fk_literal_count_on_bound:%s" % ety
                 roles[(None, ("g%d" % k,))] = "range_fk_renamed_count:%s" % ety
+                roles[(None, ("e%d" % k,))] = "range_fk_literal_count_first:%s" % ety
+                roles[(None, ("d%d" % k,))] = "range_fk_literal_count_alone:%s" % ety
             cases.append(Case(Project("en", ["en", "fr"], files, style=style), "c04_ranges/%s/%d" % (ety, rep), roles=roles))
             ci += 1
     # integer ranges without fallback that cover the whole type
@@ -547,6 +556,26 @@ def c06_cases(tier, seed):
         for k in ("c_range", "c_plural", "c_range_only_name", "c_frange"):
             roles[(None, (k,))] = "fk_count_%s" % cname
         cases.append(Case(Project("en", ["en", "fr"], files), "c06_counts/%s" % cname, roles=roles))
+    # ---- literal counts whose plural category has no declared form (falls back to `other`), arguments still applied;
+    #      count and references in first position of the value
+    locs = ["en", "fr", "ru", "ar"]
+    files = {l: {"t_ord": PLURAL("ordinal", {"one": S(l + " ", V("count"), "st of ", V("name")), "other": S(V("count"), "th ", l, " of ", V("name"))}),
+                 "t_card": PLURAL("cardinal", {"one": S(V("name"), " ", l, " one ", V("count")), "other": S(V("count"), " ", l, " others, ", V("name"))}),
+                 "t_price": NUM(59), "t_on": ("bool", True), "t_items": S(V("count"), " items in ", V("place"))} for l in locs}
+    roles = {}
+    for i, n in enumerate([0, 1, 2, 3, 5, 11, 100]):
+        for l in locs:
+            files[l]["o%d" % i] = S(FK("t_ord", {"count": NUM(n), "name": S(V("who"))}), " end")
+            files[l]["k%d" % i] = S("[", FK("t_card", {"count": NUM(n), "name": S("NM")}), "]")
+        roles[(None, ("o%d" % i,))] = "fk_count_undeclared_form"
+        roles[(None, ("k%d" % i,))] = "fk_count_undeclared_form"
+    for l in locs:
+        files[l]["first_num"] = S(FK("t_price"), " euros")
+        files[l]["first_bool"] = S(FK("t_on"), " is the setting")
+        files[l]["first_count"] = S(FK("t_items", {"count": NUM(3), "place": S("the cart")}), " today")
+    for k in ("first_num", "first_bool", "first_count"):
+        roles[(None, (k,))] = "fk_first_position_nonstring"
+    cases.append(Case(Project("en", locs, files), "c06_counts/undeclared_form", roles=roles))
     # ---- chains of references (depth 3), arguments travelling through the chain, references inside plural forms / range branches
     def chain_files(which):
         files = base(["en", "fr"])
